@@ -85,6 +85,7 @@ func (c *Ctx) freshObj(hint, kind string) Val {
 		o.F["cur"] = Sc{c.fresh(hint+".cur", SStr), SStr}
 		o.F["done"] = scBool(c.fresh(hint+".done", SBool))
 		c.facts = append(c.facts, tAnd(tLe("0", o.F["pos"].(Sc).T), tLe(o.F["pos"].(Sc).T, o.F["n"].(Sc).T)))
+		c.facts = append(c.facts, tImp(o.F["done"].(Sc).T, tEq(o.F["pos"].(Sc).T, o.F["n"].(Sc).T)))
 	case "csv.Reader":
 		c.csvFields(o, hint, scInt(c.fresh(hint+".id", SInt)))
 		o.F["pos"] = scInt(c.fresh(hint+".pos", SInt))
@@ -209,6 +210,7 @@ func (c *Ctx) havocObj(o Obj, hint string) Val {
 		c.facts = append(c.facts, tAnd(tLe("0", n.F["pos"].(Sc).T), tLe(n.F["pos"].(Sc).T, n.F["end"].(Sc).T)))
 	case "bufio.Scanner", "csv.Reader":
 		c.facts = append(c.facts, tAnd(tLe("0", n.F["pos"].(Sc).T), tLe(n.F["pos"].(Sc).T, n.F["n"].(Sc).T)))
+		c.facts = append(c.facts, tImp(n.F["done"].(Sc).T, tEq(n.F["pos"].(Sc).T, n.F["n"].(Sc).T)))
 	case "io.Writer":
 		// the failed flag is sticky and output only grows: stated by callers' contracts, not here
 	}
@@ -370,6 +372,69 @@ func init() {
 		no.F["canUnread"] = scBool(ok)
 		return Tup{[]Val{scInt(b), scInt(e)}}, x.assignBack(recv, no, st1)
 	})
+	reg("(*bufio.Reader).ReadString", "reads up to and including the next delimiter: the bytes and nil; at the end of the stream the remaining bytes with io.EOF or (fault) a non-EOF error", func(x *Exec, n *ast.CallExpr, recv ast.Expr, st *State) (Val, *State) {
+		ov, st1 := x.eval(recv, st)
+		dv, st2 := x.eval(n.Args[0], st1)
+		o := ov.(Obj)
+		c := x.c
+		pos, end := o.F["pos"].(Sc).T, o.F["end"].(Sc).T
+		in := o.F["in"].(Sc).T
+		d := dv.(Sc).T
+		// e: position of the first delimiter at or after pos, or end
+		e := c.fresh("rs.e", SInt)
+		c.assume(tTrue, tAnd(tLe(pos, e), tLe(e, end)))
+		c.assume(tTrue, tForall([][2]string{{"i!r", SInt}}, tImp(tAnd(tLe(pos, "i!r"), tLt("i!r", e)), tNot(tEq(tSel(in, "i!r"), d))), tSel(in, "i!r")))
+		c.assume(tTrue, tImp(tLt(e, end), tEq(tSel(in, e), d)))
+		found := tLt(e, end)
+		hi := c.define("rs.hi", SInt, tIte(found, tAdd(e, "1"), end))
+		str := c.fresh("rs.s", SStr)
+		c.usesStr = true
+		c.assume(tTrue, tEq(app("slen", str), tSub(hi, pos)))
+		c.assume(tTrue, tForall([][2]string{{"i!r", SInt}}, tImp(tAnd(tLe("0", "i!r"), tLt("i!r", tSub(hi, pos))), tEq(app("sat", str, "i!r"), tSel(in, tAdd(pos, "i!r")))), app("sat", str, "i!r")))
+		faultNow := tAnd(tNot(found), o.F["fault"].(Sc).T, tOr(tNot(o.F["fired"].(Sc).T), o.F["forever"].(Sc).T))
+		er := c.define("rs.err", SInt, tIte(found, errNil, tIte(faultNow, o.F["err"].(Sc).T, errEOF)))
+		no := Obj{o.Kind, map[string]Val{}}
+		for k, v := range o.F {
+			no.F[k] = v
+		}
+		no.F["pos"] = scInt(hi)
+		no.F["fired"] = scBool(tOr(o.F["fired"].(Sc).T, faultNow))
+		no.F["canUnread"] = scBool(tFalse)
+		return Tup{[]Val{Sc{str, SStr}, scInt(er)}}, x.assignBack(recv, no, st2)
+	})
+	reg("strings.TrimSuffix", "s without the given constant suffix if present, else s", func(x *Exec, n *ast.CallExpr, recv ast.Expr, st *State) (Val, *State) {
+		sv, st1 := x.eval(n.Args[0], st)
+		cv, ok := x.constOf(n.Args[1])
+		if !ok {
+			panic(unsupported("strings.TrimSuffix with non-constant suffix"))
+		}
+		suf := constant.StringVal(cv)
+		s := sv.(Sc).T
+		c := x.c
+		ln := app("slen", s)
+		conds := []string{tGe(ln, tInt(int64(len(suf))))}
+		for i := 0; i < len(suf); i++ {
+			conds = append(conds, tEq(app("sat", s, tSub(ln, tInt(int64(len(suf)-i)))), tInt(int64(suf[i]))))
+		}
+		has := c.define("hassuf", SBool, tAnd(conds...))
+		cut := x.substr(s, "0", tSub(ln, tInt(int64(len(suf)))))
+		r := c.fresh("trimmed", SStr)
+		c.assume(tTrue, tAnd(tImp(has, tEq(r, cut)), tImp(tNot(has), tEq(r, s))))
+		return Sc{r, SStr}, st1
+	})
+	reg("strings.Split", "splits s around each instance of the (constant, one-byte) separator: n+1 fields for n separators, none containing the separator, whose concatenation with separators is s", func(x *Exec, n *ast.CallExpr, recv ast.Expr, st *State) (Val, *State) {
+		sv, st1 := x.eval(n.Args[0], st)
+		_, st2 := x.eval(n.Args[1], st1)
+		c := x.c
+		c.usesStr = true
+		c.declareFun("split!n", []string{SStr, SStr}, SInt)
+		c.declareFun("split!f", []string{SStr, SStr}, arrSort(SInt, SStr))
+		sepv, _ := x.eval(n.Args[1], st2)
+		s, sep := sv.(Sc).T, sepv.(Sc).T
+		cnt := app("split!n", s, sep)
+		c.assume(tTrue, tGe(cnt, "1"))
+		return Sl{Sc{app("split!f", s, sep), arrSort(SInt, SStr)}, "0", cnt, tFalse, types.Typ[types.String]}, st2
+	})
 	reg("(*bufio.Reader).UnreadByte", "steps back one byte if the last operation was a successful ReadByte (else error, no effect)", func(x *Exec, n *ast.CallExpr, recv ast.Expr, st *State) (Val, *State) {
 		ov, st1 := x.eval(recv, st)
 		o := ov.(Obj)
@@ -409,6 +474,13 @@ func init() {
 		no.F["pos"] = scInt(c.define("scanpos", SInt, tIte(ok, tAdd(pos, "1"), pos)))
 		no.F["done"] = scBool(tOr(o.F["done"].(Sc).T, tNot(ok)))
 		return scBool(ok), x.assignBack(recv, no, st1)
+	})
+	reg("(*bufio.Scanner).Buffer", "sets the maximum token size (the line/fault model of the scanner is a function of the reader; a token-too-long failure is one of the possible faults)", func(x *Exec, n *ast.CallExpr, recv ast.Expr, st *State) (Val, *State) {
+		_, st1 := x.eval(recv, st)
+		for _, a := range n.Args {
+			_, st1 = x.eval(a, st1)
+		}
+		return Tup{}, st1
 	})
 	reg("(*bufio.Scanner).Err", "nil unless scanning stopped on a failure", func(x *Exec, n *ast.CallExpr, recv ast.Expr, st *State) (Val, *State) {
 		ov, st1 := x.eval(recv, st)
@@ -458,13 +530,11 @@ func init() {
 	reg("github.com/fluhus/gostuff/aio.Open", "opens the path: error for an unopenable path, else a reader over the (decompressed by suffix) file bytes; the reader is a function of the path", func(x *Exec, n *ast.CallExpr, recv ast.Expr, st *State) (Val, *State) {
 		pv, st1 := x.eval(n.Args[0], st)
 		c := x.c
-		c.declareFun("aio!opened", []string{SStr}, SInt)
-		c.declareFun("aio!fails", []string{SStr}, SBool)
 		p := pv.(Sc).T
+		o := openedObj(c, p)
 		fails := app("aio!fails", p)
 		e := c.fresh("openerr", SInt)
 		c.assume(tTrue, tAnd(tImp(fails, tGt(e, "2")), tImp(tNot(fails), tEq(e, "0"))))
-		o := Obj{"io.Reader", map[string]Val{"id": scInt(app("aio!opened", p)), "consumed": scInt("0"), "isnil": scBool(fails)}}
 		return Tup{[]Val{o, scInt(e)}}, st1
 	})
 	reg("strconv.Atoi", "atoi: parses a decimal integer; error (non-nil, value 0) iff !atoiOK(s); inverse of Itoa", func(x *Exec, n *ast.CallExpr, recv ast.Expr, st *State) (Val, *State) {
